@@ -41,19 +41,25 @@ def gen_case(ver, rng: random.Random):
         if e not in [c[0] for c in children]:
             # the network address may also be one of the reserved values (discovery active / unknown): it is stored and read back like any other
             children.append((e, rng.choice((0xFFFC, 0xFFFD)) if rng.random() < 0.2 else rng.randrange(1, 0xFFF7), rng.random() < 0.85))
+    tclk_ = list(WELL_KNOWN) if ver >= 5 else rng.choice((list(WELL_KNOWN), rb(16)))
+    keys_ = [(rb(16), p) for p in partners]
+    if keys_ and rng.random() < 0.4:
+        keys_[rng.randrange(len(keys_))] = (list(tclk_), keys_[0][1] if len(keys_) == 1 else partners[-1])      # a partner provisioned with the trust-centre link key itself
+        if len({tuple(p) for _k, p in keys_}) < len(keys_):
+            keys_ = keys_[:1]
     return {
         "ver": ver, "rewritable": rng.random() < 0.5,
         "pan": rng.randrange(1, 0xFFFF), "epan": rb(8), "channel": rng.randrange(11, 27), "mask": rng.choice((0x07FFF800, 1 << 15, (1 << 20) | (1 << 25))),
         "updateId": rng.randrange(256), "netKey": rb(16), "netSeq": rng.randrange(256),
         "netFc": rng.choice((0, 1, 0x12345, 0x7FFFFFFF, 0x80000000, 0xFFFFFFFE, rng.randrange(2 ** 32))),
         "apsFc": rng.choice((0, 5, 0xFFFFFFF0, rng.randrange(2 ** 32))),
-        "tclk": list(WELL_KNOWN) if ver >= 5 else rng.choice((list(WELL_KNOWN), rb(16))),
+        "tclk": tclk_,
         "hashed": rng.choice((None, rb(16))),
         "tc": rng.choice(("unknown", "self", "other")),
         "ieee": rng.choice(("same", "different", "different", "unknown")),
         "burn": rng.random() < 0.3,            # permission to burn the address into the write-once manufacturing token
         "twice": rng.random() < 0.35,          # the same backup is restored a second time
-        "keys": [(rb(16), p) for p in partners],
+        "keys": keys_,
         "children": children,
         "stale": rng.random() < 0.5,          # the NCP is off-network but still holds link keys of an earlier network / unfinished restore (the key table outlives a network; the child table does not)
         "dropChild": rng.random() < 0.6,      # afterwards the child in the lowest slot leaves and the settings are read once more
